@@ -5,5 +5,5 @@ patch=$1; shift
 exec 9>/repo/.git/verif-repolock; flock -x 9; export VERIF_HOLDS_LOCK=1
 git -C /repo apply "$patch" || { echo "patch does not apply"; exit 3; }
 trap 'git -C /repo checkout -- . ; git -C /repo status --short | head' EXIT
-/verif/check "$@"
+"$(dirname "$0")/../check" "$@"
 echo "exit=$?"
